@@ -19,6 +19,7 @@ CLAIMED = {
  "C20": ("DESIGN.md §5 C20", "asm plans [set $.asm [fn args...]] over 19 functions x arity x argument kinds with symbolic values: no panic, determinism, $.src frame, documented results for the all-int / all-bool / string cells, String() -> sen.Parse -> NewPlan equivalence"),
  "C19": ("DESIGN.md §5 C19", "alt.Diff/Compare/Match on pairs of trees with symbolic leaves and ignore paths: empty iff equal (up to numeric width, null-vs-absent), soundness and completeness of the reported paths, Compare vs Diff, Match vs reference"),
  "C07": ("DESIGN.md §5 C07", "two-call histories on every reusable parser / validator / tokenizer / writer and through the pooled package-level functions (sync.Pool contract stub), first call symbolic and state-setting, second call compared with a fresh instance; earlier results re-inspected"),
+ "C08": ("DESIGN.md §5 C08", "PARTIAL: the sequential ownership lemma only - two consecutive calls of the pooled / shared APIs on private symbolic data: earlier results unaltered, no storage shared between results, inputs and (through reuse) pooled instances; interleavings, the race detector's view and the reflection caches are outside the claim"),
  "C09": ("DESIGN.md §5 C09", "reported Line/Column vs the reference's first-offending-byte position on every rejecting path"),
 }
 NA = {
